@@ -31,8 +31,22 @@ def fle(a, b):
     return a <= b
 
 
-TOL = Fraction(1, 1 << 13)   # float mode: |reported score - exact chained score| allowed (rounding of <= 15 float32 sums)
-GAP = Fraction(1, 1 << 9)    # float mode: a selection decided by a smaller margin is treated like a tie
+MAG = 64     # scores up to this magnitude are compared with an absolute tolerance, larger ones relative to it
+
+
+def tol_of(case, ref=0):
+    """float mode: |reported score - exact chained score| allowed = 2^10 * eps of the dtype the search
+    accumulates in (start score in the default dtype promoted with the language model's dtype): 2^-13 for
+    float16 / bfloat16 / float32 models (rounding of <= 15 float32 sums), 2^-42 for float64 models; for
+    scores beyond 64 in magnitude (large-magnitude logits only) relative: times |score| / 64."""
+    return L.TOLF * L.result_eps(case["lm"]) * max(1, abs(ref) / MAG)
+
+
+def gap_of(case):
+    """float mode: a selection decided by a smaller margin (16 tolerances) is treated like a tie:
+    2^-9 for models up to float32, 2^-38 for float64 models (the driver reports the margin divided by
+    max(1, |score| / 64), i.e. relative for large-magnitude scores)."""
+    return L.GAPF * L.result_eps(case["lm"])
 
 
 def is_float(case):
@@ -45,7 +59,7 @@ def tie_like(case, flags):
     if flags.get("tie"):
         return True
     g = flags.get("gap")
-    return bool(is_float(case) and g is not None and Fraction(g) < GAP)
+    return bool(is_float(case) and g is not None and Fraction(g) < gap_of(case))
 
 
 def close(case, a, b):
@@ -55,7 +69,8 @@ def close(case, a, b):
     if not is_float(case) or "-inf" in (a, b):
         return False
     try:
-        return abs(Fraction(a) - Fraction(b)) <= TOL
+        fa, fb = Fraction(a), Fraction(b)
+        return abs(fa - fb) <= tol_of(case, max(abs(fa), abs(fb)))
     except (ValueError, ZeroDivisionError):
         return False
 
@@ -85,10 +100,17 @@ class C04(PropertyCheck):
             "ties) driven through a quantising hook (instance attribute / subclass) = exact mode; float mode = "
             "the library's own update_log_probs_for_step with the hash model, the library's Extractable-/"
             "MixableShallowFusionLanguageModel over two hash models, or the library's LookupLanguageModel over "
-            "a random back-off table (tolerance 2^-13, selection margin 2^-9); small grids enumerated incl. "
+            "a random back-off table, or a recurrent model whose threaded state is a FLOATING tensor given by "
+            "the caller (or defaulted) - each computing in float16 / bfloat16 / float32 / float64 (fusion: the "
+            "two components possibly in different dtypes), optionally under torch default dtype float64, with "
+            "near-tie rows (tokens 2 / 16 / 256 decision margins apart: for float64 models far below float32 "
+            "resolution) or large-magnitude logits (x16 / x128); tolerance 2^10 eps and selection margin 2^14 eps "
+            "of the dtype the search accumulates in (2^-13 / 2^-9 up to float32, 2^-42 / 2^-38 for float64; "
+            "relative beyond |score| 64); small grids enumerated incl. "
             "max_iters=0 and step limits far beyond the finishing depth; advance cases: random dyadic tensors "
-            "incl. -inf, float32/float64, contiguous / strided / sliced / permuted storage, out-of-vocabulary "
-            "prefix tokens, malformed arguments. non-trivial (search): >= 2 "
+            "incl. -inf, every floating dtype (log_probs_prev and log_probs_t possibly of different dtypes; "
+            "2^-3 grid when a 16-bit dtype takes part), contiguous / strided / sliced / permuted storage, "
+            "out-of-vocabulary prefix tokens, malformed arguments. non-trivial (search): >= 2 "
             "finite paths and a pruning happened, or batch elements finish at different steps; (advance): "
             "K < candidates. distinct by the case dict")
     assumptions = [
@@ -100,8 +122,14 @@ class C04(PropertyCheck):
         "update_log_probs_for_step does not modify log_probs_prev",
         "slots with score -inf are unspecified (paths/lengths not compared)",
         "float mode (no hook): the model runs on the exact rational values of the floats the LM + log_softmax "
-        "return unbatched; reported scores are compared with tolerance 2^-13 and paths only when every "
-        "selection along the model's trajectory was decided by a margin >= 2^-9",
+        "return unbatched IN THE MODEL'S OWN DTYPE (the model's own chained log-probability = log_softmax, in "
+        "its dtype, of what it hands over); reported scores are compared with tolerance 2^10 eps of the dtype "
+        "the search accumulates in (torch's promotion of the start score with the model's dtype; relative "
+        "beyond |score| 64) and paths only when every selection along the model's trajectory was decided by a "
+        "margin >= 2^14 eps; that this rule implies the hypothesis of the proved C04_skeleton_stable (sepB with "
+        "half that margin on every selection) is re-checked by the driver on every float case",
+        "log_softmax and the elementwise operations of the harness models give a row the same bits whatever "
+        "else is in the batch (measured: the unbatched table reproduces the batched run to <= 5% of the tolerance)",
     ]
     exhaustive = {"quick": False, "thorough": False}
     quick_budget_s = 70
@@ -140,9 +168,19 @@ class C04(PropertyCheck):
         width = rng.choice([1, 2, 3, Kp * V, Kp * V + 2, max(1, Kp * V - 1)])
         mode = rng.choice(["none", "full", "ragged", "short"]) if S else rng.choice(["none", "zero"])
 
+        # every floating dtype, and log_probs_prev / log_probs_t of different dtypes (BeamSearch itself adds
+        # a float32 start score to whatever the language model computes in). Values live on a grid on which
+        # every sum is exact in the narrowest dtype involved: 2^-8 in [-30, 0], or 2^-3 in [-15, 0] as soon
+        # as a 16-bit dtype takes part (bfloat16 has 8 significant bits: |sum| <= 30 on a 2^-3 grid).
+        dtype = rng.choice(["float32", "float32", "float64", "float16", "bfloat16"])
+        dtype_prev = rng.choice([dtype, dtype, dtype, "float32", "float64", "float16", "bfloat16"])
+        coarse = bool({dtype, dtype_prev} & {"float16", "bfloat16"})
+
         def sc(p_inf):
             if rng.random() < p_inf:
                 return "-inf"
+            if coarse:
+                return frac_str(Fraction(-rng.randrange(0, 15 * 8), 8))
             return frac_str(Fraction(-rng.randrange(0, 30 * 256), 256))
         pinf = rng.choice([0.0, 0.0, 0.15, 0.5])
         prev = [[sc(pinf) for _ in range(Kp)] for _ in range(N)]
@@ -163,7 +201,7 @@ class C04(PropertyCheck):
         c = {"kind": "advance", "N": N, "Kp": Kp, "V": V, "S": S, "width": width, "lens": lens,
              "prev": prev, "y": y, "logp": logp, "malformed": malformed,
              "layout": rng.choice(["contiguous", "contiguous", "strided", "sliced", "permuted"]),
-             "dtype": rng.choice(["float32", "float32", "float64"])}
+             "dtype": dtype, "dtype_prev": dtype_prev}
         if malformed == "width0":
             c["width"] = rng.choice([0, -1])
         elif malformed == "lens_gt_S":
@@ -256,7 +294,8 @@ class C04(PropertyCheck):
                                         force=[rng.choice([1, 2, 3]) for _ in range(n2)],
                                         pad=self._pad_choice(rng, V2, e),
                                         via="nohook" if fl else rng.choice(["instance", "subclass"]),
-                                        lm={"kind": rng.choice(["hash", "fusion", "mixfusion"])} if fl else None)
+                                        lm={"kind": rng.choice(["hash", "fusion", "mixfusion", "rec"]),
+                                            "dtype": rng.choice(L.DTYPES)} if fl else None)
             if i % 8 == 1:
                 # a step limit far beyond the depth at which every element has finished (frozen for long)
                 V2 = rng.choice([2, 3, 4])
@@ -269,7 +308,8 @@ class C04(PropertyCheck):
                                         force=[rng.choice([0, 1, 2, 3]) for _ in range(n2)],
                                         pad=self._pad_choice(rng, V2, e),
                                         via="nohook" if fl else rng.choice(["instance", "subclass"]),
-                                        lm={"kind": rng.choice(["hash", "fusion"])} if fl else None)
+                                        lm={"kind": rng.choice(["hash", "fusion", "rec"]),
+                                            "dtype": rng.choice(L.DTYPES)} if fl else None)
             if i % 2 == 0:
                 # float mode: the library's own hook, library language models
                 yield self._float_case(rng, big)
@@ -279,7 +319,7 @@ class C04(PropertyCheck):
                 yield self._advance_case(rng, rng.choice(["width0", "lens_gt_S", "t0_lens", "shape"]))
 
     def _float_case(self, rng, big):
-        kind = rng.choice(["hash", "fusion", "fusion", "mixfusion", "lookup", "lookup"])
+        kind = rng.choice(["hash", "fusion", "fusion", "mixfusion", "lookup", "lookup", "rec", "rec"])
         V = rng.choice([2, 3, 3, 4, 5])
         T = rng.choice([1, 2, 3, 4]) if V <= 3 else rng.choice([1, 2, 3])
         full = V ** T
@@ -292,7 +332,21 @@ class C04(PropertyCheck):
         fa = rng.random() < 0.5
         batch = rng.choice([None, 1, 2, 3, 4])
         n = 1 if batch is None else batch
-        lm = {"kind": kind, "double": rng.random() < 0.2, "view": rng.random() < 0.15}
+        # every floating dtype a model may compute in; the comparison is scaled to the dtype the search then
+        # accumulates in (tol_of / gap_of): a float64 model is held to float64 accuracy
+        dt = rng.choice(["float32", "float32", "float64", "float64", "float64", "float16", "bfloat16"])
+        lm = {"kind": kind, "dtype": dt, "view": rng.random() < 0.15}
+        if kind in ("fusion", "mixfusion") and rng.random() < 0.3:
+            lm["dtype2"] = rng.choice([d for d in L.DTYPES if d != dt])     # components of different precision
+        if kind in ("hash", "fusion", "mixfusion") and rng.random() < 0.3:
+            # near-ties: tokens of a row separated by 2 / 16 / 256 decision margins of the accumulating dtype
+            lm["neartie"] = rng.choice([1, 4, 8])
+        if kind == "rec":
+            lm["h0"] = rng.random() < 0.8       # floating initial state given by the caller / model default
+        if kind != "lookup" and rng.random() < 0.12:
+            lm["scale"] = rng.choice([16, 128])  # large-magnitude logits (log-probabilities down to -800)
+        if rng.random() < 0.1:
+            lm["default64"] = True              # torch.set_default_dtype(torch.float64) around everything
         force = None
         if kind == "lookup":
             lm.update({"order": rng.choice([1, 2, 2, 3]), "sos": rng.choice([-1, 0, V - 1, V]),
@@ -302,9 +356,10 @@ class C04(PropertyCheck):
             lm["beta"] = rng.choice([0.5, 1.0, 0.25])
             if eos is not None and not lm["noctx"]:
                 force = [rng.choice([None, 0, 1, 2, 3]) for _ in range(n)]
-        zeros = kind != "lookup" and rng.random() < 0.2
+        zeros = kind not in ("lookup", "rec") and rng.random() < 0.2
+        hard = (zeros and rng.random() < 0.5) or (kind == "rec" and rng.random() < 0.15)
         return self._search_case(rng, V, T, width, eos, fa, batch, zeros=zeros, force=force,
-                                 hard=zeros and rng.random() < 0.5, via="nohook",
+                                 hard=hard, via="nohook",
                                  pad=self._pad_choice(rng, V, eos), lm=lm)
 
     # ------------------------------------------------------------------ implementation
@@ -321,15 +376,16 @@ class C04(PropertyCheck):
             fd = self._forced_depth(case)
             if fd is not None:
                 depth = min(depth, fd + 2)
-        lm = L.make_lm(V, case["qbits"], case["lm"])
         ctx = L.make_ctx(case["seeds"], case["force"], e_tok)
         quant = not is_float(case)
-        if case["lm"].get("noctx") or case["lm"].get("kind") == "lookup":
-            # nothing distinguishes the batch elements
-            tb = L.build_table(lm, ctx[0], case["qbits"], depth, e_tok, case["lm"], quant)
-            return [tb] * n, ctx, e_tok
-        return [L.build_table(lm, ctx[i], case["qbits"], depth, e_tok, case["lm"], quant)
-                for i in range(n)], ctx, e_tok
+        with L.default_dtype(case["lm"]):
+            lm = L.make_lm(V, case["qbits"], case["lm"])
+            if case["lm"].get("noctx") or case["lm"].get("kind") == "lookup":
+                # nothing distinguishes the batch elements
+                tb = L.build_table(lm, ctx[0], case["qbits"], depth, e_tok, case["lm"], quant)
+                return [tb] * n, ctx, e_tok
+            return [L.build_table(lm, ctx[i], case["qbits"], depth, e_tok, case["lm"], quant)
+                    for i in range(n)], ctx, e_tok
 
     @staticmethod
     def _forced_depth(case):
@@ -356,10 +412,10 @@ class C04(PropertyCheck):
 
     def _run_search(self, case, ctx, batch):
         import torch
-        lm = L.make_lm(case["V"], case["qbits"], case["lm"])
-        s = L.make_search(lm, case["width"], case["eos"], case["finish_all"], case["pad"], case["qbits"],
-                          case.get("via", "instance"))
-        with torch.no_grad():
+        with L.default_dtype(case["lm"]), torch.no_grad():
+            lm = L.make_lm(case["V"], case["qbits"], case["lm"])
+            s = L.make_search(lm, case["width"], case["eos"], case["finish_all"], case["pad"], case["qbits"],
+                              case.get("via", "instance"))
             y, lens, lp = s(L.initial_state(case["lm"], ctx), batch, case["max_iters"])
         return s, lm, y, lens, lp
 
@@ -446,7 +502,8 @@ class C04(PropertyCheck):
         def fl(v):
             return float("-inf") if v == "-inf" else float(Fraction(v))
 
-        dt = torch.float64 if case.get("dtype") == "float64" else torch.float32
+        dt = getattr(torch, case.get("dtype", "float32"))
+        dtp = getattr(torch, case.get("dtype_prev", case.get("dtype", "float32")))
         layout = case.get("layout", "contiguous")
         strided = layout != "contiguous"
 
@@ -469,7 +526,7 @@ class C04(PropertyCheck):
             return t.permute(dims).contiguous().permute(dims)
         N, Kp, V, S = case["N"], case["Kp"], case["V"], case["S"]
         logp = view(T(case["logp"]).reshape(N, Kp, V))
-        prev = view(torch.tensor([[fl(v) for v in r] for r in case["prev"]], dtype=dt).reshape(
+        prev = view(torch.tensor([[fl(v) for v in r] for r in case["prev"]], dtype=dtp).reshape(
             N, len(case["prev"][0]) if case["prev"] else Kp))
         y = torch.tensor(case["y"], dtype=torch.long).reshape(N, Kp, S).permute(2, 0, 1)
         y = view(y.contiguous()) if layout in ("strided", "sliced") else y if strided else y.contiguous()
@@ -527,9 +584,13 @@ class C04(PropertyCheck):
         small = T is not None and (case["V"] ** T <= 300 or (fd is not None and case["V"] ** (fd + 1) <= 300))
         comp = T if (small and norm_eos(case["V"], case["eos"]) != "invalid") else None
         batch = [{"table": [[list(h), [frac_str(x) for x in sc]] for h, sc in tb.items()]} for tb in tables]
-        return {"op": "c04.search", "case": {
-            "V": case["V"], "width": case["width"], "eos": case["eos"], "finish_all": case["finish_all"],
-            "pad": case["pad"], "max_iters": T, "batch": batch, "queries": queries, "complete_T": comp}}
+        req = {"V": case["V"], "width": case["width"], "eos": case["eos"], "finish_all": case["finish_all"],
+               "pad": case["pad"], "max_iters": T, "batch": batch, "queries": queries, "complete_T": comp}
+        if is_float(case):
+            # the driver also evaluates the hypothesis of C04_skeleton_stable (`sepB margin` on every
+            # selection of the model's trajectory) with margin = half the decision margin = 8 tolerances
+            req["margin"] = frac_str(gap_of(case) / 2)
+        return {"op": "c04.search", "case": req}
 
     # ------------------------------------------------------------------ correspondence
     ERR = {"ValueError": "value", "RuntimeError": "runtime", "IndexError": "runtime"}
@@ -550,6 +611,11 @@ class C04(PropertyCheck):
             if flags.get("ninf_choice"):
                 return []
             return [f"model raises {m['error']} ({m.get('detail')}), implementation returned a value"]
+        if is_float(case) and flags.get("sep") is False and not tie_like(case, flags):
+            # the margin rule by which float-mode paths are compared must imply the hypothesis of the
+            # proved stability theorem (C04_skeleton_stable: every selection decided by more than `margin`)
+            return [f"margin rule holds (gap {flags.get('gap')} >= {gap_of(case)}) but the model's trajectory "
+                    f"does not satisfy sepB {gap_of(case) / 2}: the rule is not covered by C04_skeleton_stable"]
         if tie_like(case, flags):
             return []
         out = []
@@ -772,6 +838,8 @@ class C04(PropertyCheck):
                 ft.append(case["kind"] + ".stream=exact(finite slots; -inf ties present)")
             else:
                 ft.append(case["kind"] + ".stream=exact")
+                if is_float(case) and fl[1].get("sep") is True:
+                    ft.append("float.skeleton_stable_hypothesis(sepB)=holds")
             if fl[2]:
                 ft.append(case["kind"] + ".model_error")
         return ft + self._tags(case, impl)
@@ -781,7 +849,9 @@ class C04(PropertyCheck):
             t = ["advance", f"advance.lens={'none' if case['lens'] is None else 'given'}",
                  f"advance.S={'0' if case['S'] == 0 else '>0'}",
                  "advance.layout=" + case.get("layout", "contiguous"),
-                 "advance.dtype=" + case.get("dtype", "float32")]
+                 "advance.dtype=" + case.get("dtype", "float32") +
+                 ("" if case.get("dtype_prev", case.get("dtype")) == case.get("dtype") else
+                  "(log_probs_prev: " + case["dtype_prev"] + ")")]
             if any(not (0 <= x < case["V"]) for m_ in case["y"] for r in m_ for x in r):
                 t.append("advance.prefix_tokens_out_of_vocabulary")
             if case.get("malformed"):
@@ -798,8 +868,20 @@ class C04(PropertyCheck):
         en = norm_eos(V, case["eos"])
         t.append("pad=" + ("-1(default)" if p_ == -1 else "eos" if p_ == en else "token" if 0 <= p_ < V
                            else "beyond_vocab" if p_ >= V else "negative"))
-        if case["lm"].get("double"):
-            t.append("lm=float64_logits")
+        dts = L.lm_dtypes(case["lm"])
+        t.append("lm.dtype=" + ("+".join(dts) if len(set(dts)) > 1 else dts[0]))
+        if is_float(case):
+            t.append("float.accumulates_in=" + ("float64" if L.result_eps(case["lm"]) < L.EPS["float32"]
+                                                   else "float32"))
+        if case["lm"].get("default64"):
+            t.append("torch_default_dtype=float64")
+        if case["lm"].get("scale"):
+            t.append("lm=large_magnitude_logits")
+        if case["lm"].get("neartie") is not None:
+            t.append(f"lm=near_ties({1 << case['lm']['neartie']} margins apart)")
+        if case["lm"].get("kind") == "rec":
+            t.append("initial_state.h=" + ("default" if case["lm"].get("h0") is False or case["lm"].get("noctx")
+                                           else "given(model dtype)"))
         if case["lm"].get("noctx"):
             t.append("initial_state=None")
         if case["lm"].get("view") and case["lm"].get("kind") != "lookup":
@@ -892,6 +974,11 @@ class C04(PropertyCheck):
                 c = dict(case)
                 c["lm"] = dict(case["lm"])
                 c["lm"][k] = False
+                yield c
+        for k in ("dtype2", "neartie", "scale", "default64"):
+            if case["lm"].get(k) is not None:
+                c = dict(case)
+                c["lm"] = {a: b for a, b in case["lm"].items() if a != k}
                 yield c
         if case["lm"].get("kind") in ("fusion", "mixfusion"):
             c = dict(case)
